@@ -21,7 +21,7 @@ type goTr struct {
 	results  map[string]string // spec name -> go var
 	bound    map[string]bool
 	inOld    bool
-	fpExact  bool // fp mode: float equality is exact; real mode: tolerance
+	fpExact  bool              // fp mode: float equality is exact; real mode: tolerance
 	subst    map[string]string // predicate parameters -> go expr
 	depth    int
 	pkg      *types.Package
